@@ -61,6 +61,8 @@ def run_property(prop: str, tier: str, seed: int, overlay=None, quiet=False) -> 
         print(f"ANALYSIS-ERROR property={prop} {exc}")
         write_evidence(res, tier, seed, time.time() - t0, [], [], error=str(exc))
         return 2
+    except BrokenPipeError:
+        raise
     except Exception as exc:  # internal error: never a violation
         tb = traceback.format_exc()
         print(f"ANALYSIS-ERROR property={prop} internal error: {exc!r}")
